@@ -80,6 +80,12 @@ type outcome struct {
 
 var clockMu sync.Mutex
 
+// the frame of Snowflake.Next in a goroutine dump, and the worker the calls run on
+// (common/watch.go: a call blocked for good on the generator's mutex is outcome kind 6)
+const nextFrame = "qchen.fun/fatchoy/x/uuid.(*Snowflake).Next("
+
+var nextWatcher *Watcher
+
 // what NewSnowflake(0) picks on this host (lower 16 bits of a private IPv4 address, or 0)
 var autoID = int64(uuid.VerifPrivateIP4())
 
@@ -119,13 +125,25 @@ func runGen(s script) (auto int64, outs []outcome) {
 		before := pos
 		var id int64
 		var err error
-		panicked, val := Catch(func() {
-			if sf != nil {
-				id, err = sf.Next()
-			} else {
-				id = uuid.NextUUID()
-			}
-		})
+		var panicked bool
+		var val interface{}
+		if nextWatcher == nil {
+			nextWatcher = NewWatcher(nextFrame)
+		}
+		if nextWatcher.Call(func() {
+			panicked, val = Catch(func() {
+				if sf != nil {
+					id, err = sf.Next()
+				} else {
+					id = uuid.NextUUID()
+				}
+			})
+		}) {
+			// the call never returns: parked on the generator's mutex, nobody inside Next
+			nextWatcher = nil
+			outs = append(outs, outcome{kind: 6})
+			break
+		}
 		if e, ok := val.(error); panicked && ok && sf == nil {
 			if _, dry := val.(clockDry); !dry {
 				panicked, err = false, e
@@ -238,6 +256,9 @@ func goCheck(ss []script, res []result) (string, bool) {
 		last, nback, prev := s.t0, int64(0), int64(0)
 		pos := 0
 		for _, o := range res[gi].outs {
+			if o.kind == 6 {
+				return "blocked", false
+			}
 			first := rd[pos]
 			final := first
 			if o.consumed > 0 {
@@ -378,7 +399,7 @@ func (g *tgen) trajectory(style int) (t0 int64, clk [][2]int64) {
 			t += int64(r.Range(2, 5000))
 			push(t, int64(r.Range(1, 3)))
 			g.out.Count("step:+k")
-		case c < 9 && (style == 1 && backs < 3 || style == 2 || style == 5):
+		case c < 9 && (style == 1 && backs < 3 || style == 2 || style == 5 || style == 3 && backs < 2 && r.Bool()):
 			d := int64(r.Range(1, 3000))
 			if style != 5 && t-d < 0 {
 				d = t
@@ -393,6 +414,24 @@ func (g *tgen) trajectory(style int) (t0 int64, clk [][2]int64) {
 			n := int64(1023 + r.Range(0, 4)) // around the 10-bit sequence
 			push(t, n)
 			push(t, int64(r.Range(0, 3))) // readings of the wait loop that do not advance
+			if r.Chance(1, 2) {
+				// the clock steps back while the caller waits: the wait must go on until a
+				// unit later than t, and no rollback is counted for what it skipped
+				d := int64(r.Range(1, 3))
+				if style != 5 && t-d < 0 {
+					d = t
+				}
+				if d > 0 {
+					push(t-d, int64(r.Range(1, 2)))
+					if r.Bool() {
+						push(t-d+1, 1)
+					}
+					if r.Bool() {
+						push(t, 1)
+					}
+					g.out.Count("step:backward-inside-wait")
+				}
+			}
 			g.out.Count("step:long-stall")
 			if r.Chance(1, 6) {
 				return // the clock ends inside the wait loop (the model's Blocked) or just before
@@ -482,6 +521,19 @@ func gen(a Args, out *Out) {
 	for _, m := range []int64{1, 1<<14 - 1, 65535} {
 		g.emit("edge", []script{{m, maxTU - 1, [][2]int64{{maxTU, 1025}, {maxTU + 1, 1}}, 0}})
 		g.emit("edge", []script{{m, maxTU, [][2]int64{{maxTU, 1024}, {maxTU + 1, 2}}, 0}})
+	}
+	// generators created while the clock is already at / beyond the end of the range, then
+	// called in that same unit (NewSnowflake seeds lastTimeUnit from the clock unchecked)
+	for _, d := range []int64{-1, 0, 1, 2, 1 << 20, 1 << 37} {
+		for _, n := range []int64{1, 3} {
+			t0 := maxTU + d
+			clk := [][2]int64{{t0, n}, {t0 + 1, 2}}
+			if r.Bool() {
+				clk = append(clk, [2]int64{t0, 1}, [2]int64{maxTU - 1, 2})
+			}
+			mids := machineIDs(r)
+			g.emit("born-late", []script{{mids[1+r.Intn(len(mids)-1)], t0, clk, 0}})
+		}
 	}
 	// through uuid.Init / uuid.NextUUID
 	napi := 24
